@@ -5,6 +5,7 @@ R11.1  registry read-modify-write-union: the dict loaded from the registry file 
        the registry key is the client's full dotted package name
 R11.2  the "shared core" predicate holds for every layout in which the core lies outside the client package
        (the predicate's AST is evaluated over symbolic directory layouts of depth 1..4 by a path-algebra interpreter)
+R11.4  the import header of the regenerated alias file covers every base class the union of codes can need
 R11.3  core emission is additive: the core/exception emitters never delete, and always (re)write what they own
 """
 from __future__ import annotations
@@ -394,6 +395,32 @@ def run(repo: Repo, rep: Report, tier: str) -> None:
                               f"registry key `{norm(key) if key is not None else 'missing'}` is not the full dotted output package: two clients can share one "
                               "registry slot (or the registry is skipped)", gen.loc(c))
     rep.require(n_sites == 2, f"R11.1: expected 2 ExceptionsEmitter.emit call sites in generate(), found {n_sites}")
+
+    # ---------------------------------------------------------------- R11.4 imports of the regenerated alias file cover the union
+    # For a shared core the class bodies are re-rendered for the union of all clients' codes (_generate_for_codes) while the import
+    # header comes from the context filled by ExceptionVisitor.visit for the *current* spec: every base class the union can need must
+    # therefore be imported unconditionally there.
+    from rules._imports import import_names
+
+    gfc = repo.func(f"{EE}:ExceptionsEmitter._generate_for_codes")
+    bases = sorted({const_str(n.value) for n in own_nodes(gfc.node) if isinstance(n, ast.Assign) and const_str(n.value) in ("ClientError", "ServerError", "HTTPError")} - {None})
+    rep.require(len(bases) >= 2, f"R11.4: base classes used by _generate_for_codes not found ({bases})")
+    ev = repo.func("visit.exception_visitor:ExceptionVisitor.visit")
+    from sa.match import Locals as _Locals3
+
+    VL = _Locals3(ev.node)
+    vcfg = CFG(ev.node)
+    for b in bases:
+        regs = {n.id for n in vcfg.nodes if n.kind == "stmt" and n.ast is not None and any(
+            isinstance(c.func, ast.Attribute) and c.func.attr == "add_import" and b in import_names(c, VL) for c in calls_in(n.ast))}
+        sub = f"{ev.module.relpath}:ExceptionVisitor.visit imports `{b}` on every path"
+        w = vcfg.must_pass(vcfg.entry, regs) if regs else [vcfg.entry]
+        if regs and w is None:
+            rep.ok("R11.4", sub, f"`{b}` is imported unconditionally, so classes regenerated for other clients' codes find their base class", ev.loc())
+        else:
+            rep.violation("R11.4", sub, f"{ev.fq}|base-import-conditional|{b}",
+                          f"`{b}` is imported only when the current spec needs it ({vcfg.describe_path(w or [])}), but exception_aliases.py is regenerated for the "
+                          f"union of all clients: a class derived from `{b}` for another client's status raises NameError when the core is imported", ev.loc())
 
     # ---------------------------------------------------------------- R11.2 shared predicate over layouts
     params = shared.params[1:]
